@@ -245,6 +245,18 @@ def run_option_family(seed):
     for how in ('inner', 'left', 'right', 'outer'):
         variants[f'join({how})'] = [{'k': 'join', 'left': dict(left, fields={'x': left['fields']['x'], 'kk': {'args': ['i'], 'f': 'OF.kkj', 'table': [[[i], (['g', 'q', 'w'] + ['u' + x for x in ids])[j]] for j, i in enumerate(ids)]}}),
                                      'right': other, 'on': ['kk'], 'how': how}]
+    # a Join whose two sides compute a field with the SAME function (of their own ids): the grouping by the left copy and by the
+    # right copy are different functions of the joined id
+    lab = lambda ids_, vals: {'args': ['i'], 'f': 'OJ.lab', 'table': [[[i], v] for i, v in zip(ids_, vals)] + [[['zz'], 'p']]}
+    la, lb = ['a0', 'a1'], ['b0', 'b1']
+    all_lab = {'args': ['i'], 'f': 'OJ.lab', 'table': [[['a0'], 'p'], [['a1'], 'p'], [['b0'], 'q'], [['b1'], 'r']]}
+    jl = {'k': 'source', 'cls': 'OJL', 'ids': la, 'params': {}, 'cargs': {}, 'defaults': {},
+          'fields': {'x': all_lab, 'kk': {'args': ['i'], 'f': 'OJL.kk', 'table': [[['a0'], 'k0'], [['a1'], 'k1']]}}}
+    jr = {'k': 'source', 'cls': 'OJR', 'ids': lb, 'params': {}, 'cargs': {}, 'defaults': {},
+          'fields': {'y': all_lab, 'kk': {'args': ['i'], 'f': 'OJR.kk', 'table': [[['b0'], 'k0'], [['b1'], 'k1']]}}}
+    selfjoin = {'k': 'join', 'left': jl, 'right': jr, 'on': ['kk'], 'how': 'inner'}
+    variants['selfjoin>>groupby(x)'] = [selfjoin, {'k': 'groupby', 'by': 'x'}]
+    variants['selfjoin>>groupby(y)'] = [selfjoin, {'k': 'groupby', 'by': 'y'}]
     recs, problems = [], []
     for what, layers in variants.items():
         try:
